@@ -11,6 +11,7 @@ import (
 	"context"
 	"errors"
 	"fmt"
+	"math"
 	"math/rand"
 	"sort"
 	"strings"
@@ -73,6 +74,63 @@ type fnCfg struct {
 	ShardFn   bool  // false: Func.Shard is nil (only when Shards == 1)
 	Outcomes  []int // outcome of the k-th Many call of this Func (cycled)
 	SlowFor   time.Duration
+	Boundary  bool          // option values at representational boundaries (see boundaryOptions)
+	MaxRel    int           // 1..3: MaxSize = (callers of this Func in round 0) -1 / +0 / +1, resolved after the rounds are generated
+	EffWait   time.Duration // effective timer values (defaults applied, clamped to 5 ms) used only to place bursts and cancellations
+	EffMaxDur time.Duration
+}
+
+const veryLong = time.Duration(math.MaxInt64)
+
+// boundaryOptions replaces the Func's options by values at representational
+// boundaries: MaxSize in {1, 2, callers-1, callers, callers+1, 1<<20,
+// MaxInt32, MaxInt}, WaitInterval / MaxDuration in {0 (default), 1ns, the
+// largest Duration} - never both timers very long, so that every batch is
+// still triggered within milliseconds.
+func boundaryOptions(r *rand.Rand, f *fnCfg) {
+	f.Boundary = true
+	switch r.Intn(8) {
+	case 0:
+		f.MaxSize = 1
+	case 1:
+		f.MaxSize = 2
+	case 2, 3, 4:
+		f.MaxRel = 1 + r.Intn(3)
+	case 5:
+		f.MaxSize = 1 << 20
+	case 6:
+		f.MaxSize = math.MaxInt32
+	default:
+		f.MaxSize = math.MaxInt
+	}
+	switch r.Intn(9) {
+	case 0:
+		f.Wait = 0
+	case 1:
+		f.Wait = 1
+	case 2:
+		f.Wait = veryLong
+	case 3:
+		f.MaxDur = 0
+	case 4:
+		f.MaxDur = 1
+	case 5:
+		f.MaxDur = veryLong
+	case 6:
+		f.Wait, f.MaxDur = 1, 1
+	case 7:
+		f.Wait, f.MaxDur = 0, 0
+	}
+}
+
+func effective(d, def time.Duration) time.Duration {
+	if d <= 0 {
+		d = def
+	}
+	if d > 5*time.Millisecond {
+		d = 5 * time.Millisecond
+	}
+	return d
 }
 
 type callerCfg struct {
@@ -137,6 +195,11 @@ func genScenario(r *rand.Rand) scenario {
 			Shards:  1 + r.Intn(4),
 			SlowFor: dur(r, 300*time.Microsecond, 3*time.Millisecond),
 		}
+		if r.Intn(6) == 0 {
+			boundaryOptions(r, &f)
+		}
+		f.EffWait = effective(f.Wait, batch.DefaultWaitInterval)
+		f.EffMaxDur = effective(f.MaxDur, batch.DefaultMaxDuration)
 		f.ShardFn = f.Shards > 1 || r.Intn(2) == 0
 		f.Colliding = f.Shards > 1 && r.Intn(2) == 0
 		f.ShardVals = shardPalette(r, f.Shards, f.Colliding)
@@ -174,8 +237,8 @@ func genScenario(r *rand.Rand) scenario {
 		acquireAll := sc.Limit > 0 && r.Intn(4) != 0
 		// burst offsets around the timers of a reference Func
 		ref := sc.Fns[r.Intn(len(sc.Fns))]
-		marks := []time.Duration{0, 0, ref.Wait / 2, ref.Wait * 9 / 10, ref.Wait, ref.Wait * 11 / 10, 2 * ref.Wait,
-			ref.MaxDur * 9 / 10, ref.MaxDur, ref.MaxDur * 11 / 10}
+		marks := []time.Duration{0, 0, ref.EffWait / 2, ref.EffWait * 9 / 10, ref.EffWait, ref.EffWait * 11 / 10, 2 * ref.EffWait,
+			ref.EffMaxDur * 9 / 10, ref.EffMaxDur, ref.EffMaxDur * 11 / 10}
 		nb := 1 + r.Intn(4)
 		bursts := make([]time.Duration, nb)
 		for b := range bursts {
@@ -204,7 +267,7 @@ func genScenario(r *rand.Rand) scenario {
 					cc.Ctx = ctxOwnLive
 				case p < 8:
 					cc.Ctx = ctxOwnTimed
-					cc.OwnAt = cc.Delay + time.Duration(r.Int63n(int64(ref.MaxDur+ref.SlowFor)))
+					cc.OwnAt = cc.Delay + time.Duration(r.Int63n(int64(ref.EffMaxDur+ref.SlowFor)))
 				}
 			}
 			rc.Callers = append(rc.Callers, cc)
@@ -216,7 +279,7 @@ func genScenario(r *rand.Rand) scenario {
 			rc.Cancel = cancelBefore
 		case p < 9:
 			rc.Cancel = cancelDuring
-			rc.CancelAt = time.Duration(r.Int63n(int64(span + ref.MaxDur + 1)))
+			rc.CancelAt = time.Duration(r.Int63n(int64(span + ref.EffMaxDur + 1)))
 		default:
 			rc.Cancel = cancelAfter
 		}
@@ -231,6 +294,20 @@ func genScenario(r *rand.Rand) scenario {
 			}
 		}
 		sc.Rounds = append(sc.Rounds, rc)
+	}
+	for fi := range sc.Fns {
+		if rel := sc.Fns[fi].MaxRel; rel != 0 {
+			c := 0
+			for _, cc := range sc.Rounds[0].Callers {
+				if cc.Fn == fi {
+					c++
+				}
+			}
+			sc.Fns[fi].MaxSize = c + rel - 2
+			if sc.Fns[fi].MaxSize < 1 {
+				sc.Fns[fi].MaxSize = 1
+			}
+		}
 	}
 	return sc
 }
@@ -935,6 +1012,22 @@ func oracle(sc scenario, rounds []*roundLog, manys []*manyRec) (string, bool, ma
 			c = "c"
 			feats["func:shard_values_of_mixed_types_same_rendering"]++
 		}
+		if f.Boundary {
+			c += "b"
+			feats["func:boundary_option_values"]++
+			if f.MaxSize >= 1<<20 {
+				feats["func:huge_MaxSize"]++
+			}
+			if f.Wait == veryLong || f.MaxDur == veryLong {
+				feats["func:very_long_timer_option"]++
+			}
+			if f.Wait == 1 || f.MaxDur == 1 {
+				feats["func:1ns_timer_option"]++
+			}
+			if f.Wait == 0 || f.MaxDur == 0 {
+				feats["func:default_timer_option"]++
+			}
+		}
 		cfgs = append(cfgs, fmt.Sprintf("m%d/s%d%s", f.MaxSize, f.Shards, c))
 	}
 	var rs []string
@@ -968,7 +1061,7 @@ func oracle(sc scenario, rounds []*roundLog, manys []*manyRec) (string, bool, ma
 func TestCheck(t *testing.T) {
 	run := vlib.Start(t, "C05", "exploration")
 	defer run.Finish()
-	run.Rule("seeded scenarios on the real batch.Func: 1..3 Funcs on one batching context (MaxSize in {0,1,2,3,7}, WaitInterval 0.2-2 ms, MaxDuration 1-5 ms, 1..4 shards, Shard func nil or set, shard values either ints or values of different dynamic types / distinct pointers with the same %v rendering (orgID(b), deviceID(b), int b, string b, int64(b), two &shardPoint{b}, uint8(b)), per-call Many outcome from {ok, error, error+results, panic (with a value that is a string, error, custom error type, int, struct, pointer, Stringer, slice, func, nil, or raised by the runtime: nil map write, index out of range, nil dereference), short, long, slow, slow-until-cancel}), " +
+	run.Rule("seeded scenarios on the real batch.Func: 1..3 Funcs on one batching context (MaxSize in {0,1,2,3,7}, WaitInterval 0.2-2 ms, MaxDuration 1-5 ms, one Func in six with options at representational boundaries (MaxSize in {1, 2, callers-1, callers, callers+1, 1<<20, MaxInt32, MaxInt}; WaitInterval / MaxDuration in {0 = default, 1ns, the largest Duration}, never both very long), 1..4 shards, Shard func nil or set, shard values either ints or values of different dynamic types / distinct pointers with the same %v rendering (orgID(b), deviceID(b), int b, string b, int64(b), two &shardPoint{b}, uint8(b)), per-call Many outcome from {ok, error, error+results, panic (with a value that is a string, error, custom error type, int, struct, pointer, Stringer, slice, func, nil, or raised by the runtime: nil map write, index out of range, nil dereference), short, long, slow, slow-until-cancel}), " +
 		"1..3 back-to-back rounds of 1..64 callers (1..3 sequential Invokes each) started in bursts placed at 0, 0.5/0.9/1/1.1/2 x WaitInterval and 0.9/1/1.1 x MaxDuration, round context cancelled never / before / during / after, " +
 		"with or without concurrencylimiter.With(ctx,1..3) and an Acquire around every Invoke, random yields at the batch.* and limiter.* hooks. In half of the rounds all callers share the round's cancellable context; in the other half callers use own contexts derived from it (live, cancelled at a seeded time, or - in half of those rounds - cancelled by the harness at the moment a Many call whose first argument is theirs, i.e. whose group they created, is entered, with Many outcomes biased to slow-until-cancel). " +
 		"Non-trivial = the log shows a MaxSize roll-over (a full batch followed by another batch of the same Func/shard in the round), a late joiner (Invoke called after a Many call of its Func/shard had started, and dispatched in a later call) or a cancellation while Invokes were outstanding; " +
